@@ -652,10 +652,14 @@ def _r7(ctx):
             guard = False
             for bb, idx, s in b.stmts():
                 rv = s.get("rv")
-                if rv and rv["k"] == "bin" and rv["op"] in ("Gt", "Ge") and rv["b"].get("k", {}).get("int") in ("65535", "65536"):
-                    guard = True
+                if rv and rv["k"] == "bin":
+                    ka, kb = rv["a"].get("k", {}).get("int"), rv["b"].get("k", {}).get("int")
+                    # sum > 0xffff, sum >= 0x10000, and the same with the operands the other way round
+                    if (rv["op"], kb) in (("Gt", "65535"), ("Ge", "65536")) or (rv["op"], ka) in (("Lt", "65535"), ("Le", "65536")):
+                        guard = True
             fold = any(s.get("rv") and s["rv"]["k"] == "bin" and s["rv"]["op"].startswith("Shr") and s["rv"]["b"].get("k", {}).get("int") == "16" for _, _, s in b.stmts()) and \
-                any(s.get("rv") and s["rv"]["k"] == "bin" and s["rv"]["op"] == "BitAnd" and s["rv"]["b"].get("k", {}).get("int") == "65535" for _, _, s in b.stmts())
+                any(s.get("rv") and s["rv"]["k"] == "bin" and s["rv"]["op"] == "BitAnd" and "65535" in (s["rv"]["a"].get("k", {}).get("int"), s["rv"]["b"].get("k", {}).get("int"))
+                    for _, _, s in b.stmts())
             ctx.check(neg and guard and fold and bool(cfg.back_edges()), "R7", "checksum:fold-carries-then-complement", ctx.where(b),
                       "while sum > 0xffff { sum = (sum >> 16) + (sum & 0xffff) }; !sum")
 
